@@ -5,7 +5,10 @@ Definition fb (f : fact bool) (dflt : bool) : bool := match f with Known b => b 
 (* the hand-off design read off the current source (an unrecognised shape counts as the unsafe choice) *)
 Definition design_now : design :=
   {| d_upd_queue := fb updates_queued false; d_notif_queue := fb notifications_queued false;
-     d_watch_locks := fb watch_holds_lock true; d_handler_holds := negb (fb handler_copies_partitions false) |}.
+     d_watch_locks := fb watch_holds_lock true;
+     (* the allocator holds a lock that applying a catalogue entry takes, while its proposal waits: the watched-partitions
+        lock in the handlers, or a catalogue lock inside the proposal call *)
+     d_handler_holds := negb (fb handler_copies_partitions false && fb proposal_wait_lock_free false) |}.
 
 Lemma C18_facts_ok :
   design_now = design_safe /\ proposal_checks_group = Known true /\ loop_owns_watched_set = Known true.
